@@ -59,4 +59,9 @@ theorem src_pca_transform_is_projection :
     Gen.pcaTransformBody = ["transformed = xr.dot(X, self.V, dims=self.feature_name)", "transformed.name = X.name",
       "return transformed.rename({'mode': self.feature_name})"] := by decide
 
+/-- source obligation: normalised out-of-sample scores are divided by the norms stored at fit, not by a statistic of the data being
+transformed -/
+theorem src_normalized_uses_fitted_norms :
+    Gen.singleTransformNormalizedBody.head? = some "data2D = data2D / self.data['norms']" := by decide
+
 end C05
